@@ -600,9 +600,9 @@ func (s *flowScope) assign(lhs, rhs []ast.Expr, define bool) []flowNode {
 				}
 				continue
 			}
-			if flowIsBoolExpr(r) || s.bools[lv.Name] {
+			if c := s.cond(r); c != "DcData" || flowIsBoolExpr(r) || s.bools[lv.Name] {
 				s.bools[lv.Name] = true
-				out = append(out, flowNode{Kind: "Set", A: lv.Name, C: s.cond(r)})
+				out = append(out, flowNode{Kind: "Set", A: lv.Name, C: c})
 			}
 		case *ast.SelectorExpr:
 			// option of a nested action
